@@ -162,5 +162,20 @@ CLAIMED['C17'] = dict(
     technique="TLA+ transaction/protocol model checked by TLC; all model behaviours replayed on real sqlite with fault "
               "injection; DB-API call traces validated by TLC",
     design="3/C17")
+CLAIMED['C19'] = dict(
+    text="FailOnError.tla models convert, fieldmap, rowmap and rowmapmany as one Step per input row over a table with an "
+         "arbitrary set of failing cells and the effective policy (False / True / 'inline'). TLC checks for every subset of "
+         "failing cells (<= 3 rows x 2 fields) x policy x operator: nothing raised under False/inline; under True the "
+         "exception surfaces exactly at the first failing row after all earlier rows were delivered; non-failing rows and "
+         "cells untouched and in order; failing rows kept with errorvalue (convert, fieldmap) or dropped (rowmap, rowmapmany, "
+         "rows produced before the failure kept). Every terminal behaviour is replayed on the real operators with "
+         "converters that raise exactly on the failing cells - policy as argument and via petl.config.failonerror, with and "
+         "without errorvalue, two passes, driven by next(); exception instances are identified by the (row, field) they "
+         "carry. Random larger tables are recorded row by row and validated by FailOnErrorTrace, which drives the spec's Step.",
+    note="Converters raise ordinary Exception subclasses; the config default is bound at view construction (as modelled); "
+         "behaviour of the iterator after it raised is model-level (DRIFT).",
+    technique="TLA+ policy state machine checked by TLC over all failing-cell subsets; all behaviours replayed on real "
+              "operators; per-row traces validated by TLC",
+    design="3/C19")
 
 NOT_APPLICABLE = {}
